@@ -158,7 +158,8 @@ func genC38(t *rapid.T) c38Case {
 		c.S = rapid.OneOf(rapid.SampledFrom([]string{"", "a", "a/b", "\xff", "a\xc3", "\xc3\xa9", "\x00"}), anyStr, rapid.Custom(func(t *rapid.T) string { return gen.IllFormedUTF8(t, "ill") })).Draw(t, "s")
 		c.List = rapid.SliceOfN(rapid.SampledFrom([]string{"", "a", "b", "a", "\xff", "é"}), 0, 5).Draw(t, "list")
 	case "tptaddr":
-		c.S = rapid.OneOf(rapid.StringMatching(`[a-c|]{0,6}`), anyStr).Draw(t, "s")
+		c.S = rapid.OneOf(rapid.StringMatching(`[a-c|]{0,6}`), rapid.StringMatching(`[a-c| \t\n]{0,6}`), anyStr,
+			rapid.SampledFrom([]string{"udp| ", "udp|\t", " |127.0.0.1:5000", "ws|  \n", " udp|x", "udp|x ", "udp | x", "\u00a0|x", "udp|\u00a0"})).Draw(t, "s")
 	case "peerids":
 		c.List = rapid.SliceOfN(rapid.SampledFrom([]string{"", gen.PeerID(0).String(), gen.PeerID(1).String(), " " + gen.PeerID(0).String() + " ", "xyz", "0OIl", gen.PeerID(2).String()[:20]}), 0, 5).Draw(t, "list")
 	case "peerid":
